@@ -29,16 +29,19 @@ type EP struct {
 type Case struct {
 	Bundle    []string // caA | caB | bundleAB | "" (an empty path); no entry at all = an empty list
 	Endpoints []EP
+	// ClientChain: the configured client certificate file holds the leaf followed by its issuing CA
+	ClientChain bool
 }
 
 func gen(t *rapid.T) Case {
 	c := Case{Bundle: rapid.SampledFrom([][]string{{"caA"}, {"caB"}, {"caA", "caB"}, {"bundleAB"}, {"caB", "caA"}, {"caA", "caA"},
 		{"caA"}, {"caB"}, {"caA", "caB"}, {}, {""}, {"", ""}, {"", "caA"}}).Draw(t, "bundle")}
+	c.ClientChain = rapid.Bool().Draw(t, "clientChain")
 	n := rapid.IntRange(1, 3).Draw(t, "n")
 	for i := 0; i < n; i++ {
 		l := fmt.Sprintf("e%d", i)
 		c.Endpoints = append(c.Endpoints, EP{
-			Identity:   rapid.SampledFrom([]string{"caA", "caA", "caB", "caB", "foreign", "selfsigned", "expired", "notyet", "wrongname", "justexpired", "justvalid"}).Draw(t, l+"I"),
+			Identity:   rapid.SampledFrom([]string{"caA", "caA", "caB", "caB", "foreign", "selfsigned", "expired", "notyet", "wrongname", "justexpired", "justvalid", "clientsca"}).Draw(t, l+"I"),
 			Proto:      rapid.SampledFrom([]string{"any", "any", "tls12", "tls13", "old"}).Draw(t, l+"P"),
 			ClientAuth: rapid.SampledFrom([]string{"none", "request", "require", "request-otherca", "verifyifgiven", "verifyifgiven-otherca"}).Draw(t, l+"C"),
 		})
@@ -123,8 +126,13 @@ func exec(c Case) (vh.Outcome, error) {
 		}
 		files = append(files, f.CAFile(b))
 	}
+	clientCertFile := f.ClientCertFile()
+	if c.ClientChain {
+		clientCertFile = f.ClientChainFile()
+		out.Classes = append(out.Classes, "client-cert-with-chain")
+	}
 	signer, err := crypki.NewSigner(crypki.SignerConfig{
-		TLSClientKeyFile: f.ClientKeyFile(), TLSClientCertFile: f.ClientCertFile(), TLSCACertFiles: files,
+		TLSClientKeyFile: f.ClientKeyFile(), TLSClientCertFile: clientCertFile, TLSCACertFiles: files,
 		CrypkiEndpoints: ips, CrypkiPort: uint(g.Port), Retries: 1, PerTryTimeout: 10 * time.Second,
 	})
 	if err != nil {
@@ -184,7 +192,7 @@ func exec(c Case) (vh.Outcome, error) {
 	return out, nil
 }
 
-const rule = "CA bundles of one or two files (single CA, the other CA, both as separate files, both in one file, a file listed twice) and, 4 in 13, degenerate ones (no file at all, empty paths, an empty path next to a real file: either refused as configuration, or no CA beyond the readable files is trusted); the 'foreign' CA is installed as this process's host trust store (SSL_CERT_FILE), i.e. it stands for a publicly trusted CA that is not configured; 1..3 endpoints on loopback aliases, each a real gRPC-over-TLS server with identity {issued by configured CA A / CA B with matching IP SAN, by a foreign CA, self-signed, expired a day ago / 20 s ago, not yet valid, valid since 20 s only (genuine), valid for another address} x protocol range {TLS 1.0-1.1 only, 1.2 only, 1.3 only, any} x client-certificate policy {none, request, require+verify, request while naming another CA, verify-if-given against the right / another client CA}; every server would sign (each with its own certificate, so the answering server is identifiable). Oracle: Sign succeeds iff some endpoint is genuine (issued by a CA of the bundle, right address, valid now, speaks >= TLS 1.2) and the answer is the first such endpoint's; impostors never receive the RPC; negotiated version >= 1.2; when the server asked, the peer certificate is byte-identical to the configured client certificate. Non-trivial: at least one impostor in the list."
+const rule = "CA bundles of one or two files (single CA, the other CA, both as separate files, both in one file, a file listed twice) and, 4 in 13, degenerate ones (no file at all, empty paths, an empty path next to a real file: either refused as configuration, or no CA beyond the readable files is trusted); the 'foreign' CA is installed as this process's host trust store (SSL_CERT_FILE), i.e. it stands for a publicly trusted CA that is not configured; 1..3 endpoints on loopback aliases, each a real gRPC-over-TLS server with identity {issued by configured CA A / CA B with matching IP SAN, by a foreign CA, self-signed, expired a day ago / 20 s ago, not yet valid, valid since 20 s only (genuine), valid for another address, issued by the CA of the RA's own client certificate} x protocol range {TLS 1.0-1.1 only, 1.2 only, 1.3 only, any} x client-certificate policy {none, request, require+verify, request while naming another CA, verify-if-given against the right / another client CA}; the client certificate file holds the leaf alone or the leaf followed by its issuing CA; every server would sign (each with its own certificate, so the answering server is identifiable). Oracle: Sign succeeds iff some endpoint is genuine (issued by a CA of the bundle, right address, valid now, speaks >= TLS 1.2) and the answer is the first such endpoint's; impostors never receive the RPC; negotiated version >= 1.2; when the server asked, the peer certificate is byte-identical to the configured client certificate. Non-trivial: at least one impostor in the list."
 
 func TestC18TLS(t *testing.T) {
 	vh.Run(t, vh.Spec[Case]{Property: "C18", Name: "TestC18TLS", Rule: rule, Gen: gen, Exec: exec})
@@ -198,6 +206,13 @@ func TestC18Grid(t *testing.T) {
 			for _, ca := range []string{"none", "request", "require", "request-otherca", "verifyifgiven", "verifyifgiven-otherca"} {
 				cases = append(cases, Case{Bundle: []string{"caA"}, Endpoints: []EP{{id, pr, ca}, {"caA", "any", "request"}}})
 			}
+		}
+	}
+	// the client certificate file carries its issuing CA: servers certified by THAT CA stay impostors
+	for _, pr := range []string{"tls12", "tls13", "any"} {
+		for _, ca := range []string{"none", "request", "require"} {
+			cases = append(cases, Case{Bundle: []string{"caA"}, ClientChain: true, Endpoints: []EP{{"clientsca", pr, ca}, {"caA", "any", "request"}}},
+				Case{Bundle: []string{"caA"}, ClientChain: true, Endpoints: []EP{{"caA", pr, ca}}})
 		}
 	}
 	// degenerate bundles: no file, empty paths, an empty path beside CA A
